@@ -141,6 +141,9 @@ class AbsInstance:
         self.fields = fields
         self.d = {}
 
+    def isinstance_(self, t):
+        return t is object or (isinstance(t, type) and issubclass(t, tm.TlvModel)) or t is tm.TlvModel
+
     def getattr_(self, it, name, node):
         if name == '_encoded_fields':
             return self.fields
@@ -250,7 +253,19 @@ class model_encode(Contract):
     loops = {1: LoopSpec(_enc_inv)}
 
     def use_contract_at(c, it, args, kwargs):
-        return False
+        return isinstance(args[0], AbsInstance)
+
+    def result(c, cx, self, wire, offset, markers):
+        f = self.fields
+        total = f.psum(f.n)
+        if wire is None:
+            return cx.run.alloc(total, 'bytearray', cx.run.fresh_row('model'), True)
+        cx.run.assume(zint(offset) + total <= zint(wire.length))     # python never writes outside a buffer
+        cx.run.havoc_range(wire, offset, total, 'model')
+        return wire
+
+    def post_assumed(c, cx, result, self, wire, offset, markers):
+        return {}
 
     def post(c, cx, result, self, wire, offset, markers):
         f = self.fields
